@@ -300,4 +300,20 @@ theorem bucketize_keys (f : α → κ) (g : α → β) (kf : κ → Bool) (src :
   rw [bucketLoop_keys]
   simp [keysOf]
 
+/-- the returned dict is completely determined: keys in order of first appearance, each with the
+    (transformed) items carrying it, in input order -/
+theorem bucketize_eq_map (f : α → κ) (g : α → β) (kf : κ → Bool) (src : List α) :
+    bucketize f g kf src =
+      (unique id ((src.map f).filter kf)).map
+        (fun k => (k, (src.filter (fun x => decide (f x = k))).map g)) := by
+  rw [← bucketize_keys f g kf src]
+  unfold keysOf
+  rw [List.map_map]
+  conv => lhs; rw [← List.map_id (bucketize f g kf src)]
+  apply List.map_congr_left
+  intro e he
+  have := ((bucketize_spec f g kf src).2.1 e he).1
+  simp only [id_eq, Function.comp_apply]
+  rw [← this]
+
 end C09
